@@ -6,6 +6,10 @@ Pending(f) == SelectSeq(AllHosts, LAMBDA h : ~Known(f, h))
 CaseOf(f, ta, a) == LET app == ta \/ a \in {"y", "a", "dy"} IN
   [file |-> f, trustall |-> ta, answer |-> a,
    proceed |-> {h \in Hosts : Known(f, h) \/ app},
-   after |-> IF app /\ Pending(f) # <<>> THEN Rewrite(f, Pending(f)) ELSE f]
+   after |-> IF app /\ Pending(f) # <<>> THEN Rewrite(f, Pending(f)) ELSE f,
+   \* the same hosts put before the user in two batches, one after the other, in one client session (a host that shows up
+   \* more than 2 s after the first): two Prompt steps, the second rewrite starts from what the first one left
+   after2 |-> IF app /\ Len(Pending(f)) = 2 THEN Rewrite(Rewrite(f, <<Pending(f)[1]>>), <<Pending(f)[2]>>)
+              ELSE IF app /\ Pending(f) # <<>> THEN Rewrite(f, Pending(f)) ELSE f]
 ASSUME ndJsonSerialize("c17_cases.ndjson", SetToSeq({CaseOf(f, ta, a) : f \in Files, ta \in BOOLEAN, a \in Answers}))
 ================================================================================
